@@ -65,6 +65,18 @@ CLAIMED = {
          "Theorems in coq/Props/C19.v: debug evaluation is transparent; what each term kind records and when; the recorder keeps values and order, moves columns only right and never lets two entries share a column; the report's first line is the source; recorded single-line values appear at their column. Every run evaluates generated single-line programs (ASCII and non-ASCII identifiers and strings, multi-line values, unevaluated lazy branches, failing programs) in debug mode and compares the outcome, every recorded (value, column) entry in order and the whole report text with the model's, and checks the property's predicates on the implementation's own output.",
          "Trusted: Coq kernel, extraction, driver, harness, the -tags verif hook exposing a record's entries.",
          "DESIGN.md §5 C19"),
+ "C12": ("Coq proof over an API model whose recover placement is read from the source; differential correspondence of the whole pipeline on arbitrary strings; per-input time budget",
+         "Theorems in coq/Props/C12.v: with the recover placement regenerated from facade.go / conv (table lemma), Compile, the Callable and Eval return a value or an error, never an escaped panic; the front end never runs out of the model's fuel; tokens are bounded by the input length. Every run feeds random runes, lexical-fragment strings, token mutations of valid programs, bracket / operator nests and hostile host values to Eval, Compile, the Callable and Debug (no panic may cross, budget 400 ms growing quadratically beyond 200 runes) and compares Compile + invoke with the API model on every string.",
+         "PARTIAL: wall-clock promptness and Go stack exhaustion are run-time behaviour the model cannot exhibit (watched by the harness budget only). Trusted: Coq kernel, extraction, driver, harness, translator's recover-site scan.",
+         "DESIGN.md §5 C12"),
+ "C13": ("Coq proof over a history model (engines, environment objects, compiled expressions); histories, repetition, stdout capture and host-value comparison on the implementation",
+         "Theorems in coq/Props/C13.v: Inherit leaves its receiver usable; no operation of any history changes an environment object or an existing compiled expression; invocation and compilation results are local to their own inputs; initialisation is idempotent; only print writes to standard output; rendering and string() do not depend on map entry order. Every run replays random compile / invoke histories over shared engines and environment objects against fresh-object baselines, repeats map-bearing programs across back ends, captures standard output, and compares host values before and after.",
+         "PARTIAL: non-modification of host values and absence of addresses in renderings hold by construction in a pure model; they are checked on the implementation only (supporting evidence). Trusted: Coq kernel, extraction, driver, harness.",
+         "DESIGN.md §5 C13"),
+ "C14": ("Coq proof of the shared-state protocol for every schedule + closed-world inventory regenerated from the source; Go race detector under a stress harness as the search for a failing schedule",
+         "Theorems in coq/Props/C14.v: the inventory of package-level mutable state written outside init equals the modelled set (table lemma over a source scan); no two public operations have conflicting unsynchronised accesses; under every schedule the atomic type-variable counter hands out distinct numbers (the pre-repair plain counter is refuted by a 4-step schedule); a compilation's inferred type does not depend on where the counter stands. Every run builds harness/cmd/racer with -race and runs goroutines that compile on separate engines, on one initialised engine, and invoke one compiled expression with distinct environment objects, comparing each outcome with the sequential one.",
+         "PARTIAL: the Go memory model, the scheduler and races in code outside the inventory are run-time behaviour the model cannot exhibit; the race detector only sees the schedules that happen. Trusted: Coq kernel, harness, translator's shared-state scan, Go race detector.",
+         "DESIGN.md §5 C14"),
 }
 NOT_YET = "machinery for this property is not built yet (work in progress in this repository; see DESIGN.md §5)"
 
